@@ -389,6 +389,40 @@ def r6(ctx):
     C07.r14(ctx)
 
 
+def r7(ctx):
+    R = "C10-R7"
+    ctx.rule(R, "(a) the tokio front-end's OpenOptions forwards every option to the std shim's setter of the same name (create_new -> create_new, "
+                "append -> append): a look-alike setter wired to its neighbour makes the two front-ends disagree on the same request; (b) a seek "
+                "that is refused leaves the cursor where it was: in `Seek for File` the cursor is written only on a path that returns Ok")
+    n = 0
+    for b in ctx.w.find(r"^turmoil_fs::shim::tokio::fs::OpenOptions::\w+$"):
+        name = b.id.rsplit("::", 1)[1]
+        fw = [t["f"] for bb, t in b.calls(re.compile(r"^turmoil_fs::shim::std::fs::OpenOptions::\w+$"))]
+        if not fw or name in ("new", "open", "as_inner", "as_inner_mut", "from"):
+            continue
+        n += 1
+        other = sorted({f.rsplit("::", 1)[1] for f in fw if f.rsplit("::", 1)[1] != name})
+        ctx.inst(R, f"tokio-open-options:{name}", not other, b.span, f"{name} is forwarded to {name}" if not other else
+                 f"tokio OpenOptions::{name} forwards to the std shim's `{other[0]}`: the option asked for is not the one set - the same request gives a different file through the tokio "
+                 "front-end than through std (create_new(true) opens an existing file; append(true) writes at offset 0 and overwrites the head of the log)")
+    ctx.floor(R, 5)
+    sk = ctx.w.bodies.get("<turmoil_fs::shim::std::fs::File as std::io::Seek>::seek")
+    if sk:
+        errs = [bb for bb, s2 in ret_aggs(sk, "Err")]
+        stores = []
+        for bb, i, s2 in sk.all_stmts():
+            if i == "term" or "*" not in (s2["p"].get("p") or ()):
+                continue
+            if any(d[1] == "term" and d[2]["k"] == "call" and re.search(r"DerefMut>::deref_mut$|DerefMut::deref_mut$", d[2]["f"]) for d in sk.defs().get(s2["p"]["l"], [])):
+                stores.append((bb, s2))
+        bad = [(bb, s2) for bb, s2 in stores if any(e in sk.reachable(bb) for e in errs)]
+        ctx.inst(R, "seek:cursor-stored-only-on-success", bool(stores) and not bad, bad[0][1]["s"] if bad else sk.span, "the cursor is written after the target was validated" if stores and not bad else
+                 ("`Seek for File` writes the cursor on a path that goes on to return an error: a refused seek (negative or overflowing target) leaves the cursor near u64::MAX - the next "
+                  "read returns 0 bytes, the next write fails, although POSIX leaves the offset untouched" if bad else "no store to the cursor found in seek: re-derive"))
+    elif ctx.strict:
+        ctx.bad(R, "anchor-missing:seek", "", "Seek for File not found")
+
+
 def run(ctx):
     if ctx.config not in ("all", "fs", "fs_iou"):
         ctx.info("C10-R1", "feature-off", "", "unstable-fs not enabled in this configuration: nothing to analyse")
@@ -399,6 +433,7 @@ def run(ctx):
     r4(ctx)
     r5(ctx)
     r6(ctx)
+    r7(ctx)
     C07.r3(ctx)   # R3: syncs move records, never drop or duplicate them
     C07.r1(ctx)   # R3: only sync / crash touch the persisted image
     C04.r6(ctx)   # R4: per-host isolation
